@@ -642,6 +642,13 @@ func handleInputStream(s *Session, handler Handler) (err error) {
 		id:          id,
 	}
 	if err := handler.HandleXMPP(rw, &start); err != nil {
+		if err == io.EOF {
+			// The handler ran out of tokens inside its own element (an empty IQ,
+			// for example). Returned as it is this would be taken for the end of
+			// the input stream and Serve would end silently, without a reply or a
+			// stream error.
+			err = io.ErrUnexpectedEOF
+		}
 		return err
 	}
 
